@@ -61,10 +61,22 @@ func (mcl CommissionLimitDecorator) hasInvalidCommissionRange(msgs []sdk.Msg) er
 		switch msg := msg.(type) {
 		// Create Validator POA wrapper
 		case *poa.MsgCreateValidator:
-			return rateCheck(msg.Commission.Rate, mcl.RateFloor, mcl.RateCeil)
+			// a missing rate is rejected by the message's own validation
+			if msg.Commission.Rate.IsNil() {
+				continue
+			}
+			if err := rateCheck(msg.Commission.Rate, mcl.RateFloor, mcl.RateCeil); err != nil {
+				return err
+			}
 		// Editing the validator through staking (no POA edit)
 		case *stakingtypes.MsgEditValidator:
-			return rateCheck(*msg.CommissionRate, mcl.RateFloor, mcl.RateCeil)
+			// the commission rate is optional when editing a validator
+			if msg.CommissionRate == nil {
+				continue
+			}
+			if err := rateCheck(*msg.CommissionRate, mcl.RateFloor, mcl.RateCeil); err != nil {
+				return err
+			}
 		}
 	}
 
